@@ -116,7 +116,7 @@ def gen_cases(rng, tier):
         else:
             new = [dict(f) for f in old]
         cases.append({"k": "create", "mode": mode, "old": old, "new": new, "force": i % 2 == 0, "emptied": i % 5 == 4,
-                      "form": ["objects", "text", "path"][(i // 2) % 3]})
+                      "form": ["objects", "text", "path"][(i // 2) % 3], "pragmas": i % 4 == 1})
     m = 150 if tier == "quick" else 3000
     for i in range(m):
         calls = [{"c": rng.choice(CALLS), "r": rng.randrange(10 ** 6)} for _ in range(rng.choice([3, 5, 8, 12]))]
@@ -126,6 +126,9 @@ def gen_cases(rng, tier):
             for _ in range(rng.choice([1, 2])):
                 calls.insert(rng.randrange(len(calls)), {"c": rng.choice(FAILED_WRITES), "r": rng.randrange(10 ** 6)})
         case = {"k": "reads", "feats": hierarchy(rng), "calls": calls}
+        case["pragmas"] = i % 5 == 2
+        if i % 4 == 2:
+            case["doubled"] = True
         if i % 4 == 3:
             # a database built by the GTF importer (genes and transcripts derived; no index on the bin column)
             case["gtf"] = True
@@ -279,16 +282,21 @@ def run_impl(c):
             try:
                 objs = [imp.to_feature(x) for x in c["new"]]
                 form = c.get("form", "objects")
+                pkw = {}
+                if c.get("pragmas"):
+                    # non-default pragmas (another page size than the file has): a refused call still leaves every byte alone
+                    from gffutils import constants
+                    pkw["pragmas"] = dict(constants.default_pragmas, **{"main.page_size": 8192})
                 if form == "text":
                     db = gffutils.create_db("\n".join(str(o) for o in objs) + "\n", path, from_string=True, force=c["force"],
-                                            merge_strategy="create_unique", verbose=False)
+                                            merge_strategy="create_unique", verbose=False, **pkw)
                 elif form == "path":
                     src = os.path.join(d, "new.gff")
                     with open(src, "w") as fh:
                         fh.write("\n".join(str(o) for o in objs) + "\n")
-                    db = gffutils.create_db(src, path, force=c["force"], merge_strategy="create_unique", verbose=False)
+                    db = gffutils.create_db(src, path, force=c["force"], merge_strategy="create_unique", verbose=False, **pkw)
                 else:
-                    db = gffutils.create_db(objs, path, force=c["force"], merge_strategy="create_unique", verbose=False)
+                    db = gffutils.create_db(objs, path, force=c["force"], merge_strategy="create_unique", verbose=False, **pkw)
                 db.conn.close()
                 del db
                 out["outcome"] = ["ok", None]
@@ -307,7 +315,11 @@ def run_impl(c):
             # a stored dialect that lacks a key (hand-written, or from an older version): opening such a file is a read
             from gffutils import constants
             kw["dialect"] = dict((k, v) for k, v in constants.dialect.items() if k != c["dialect_gap"])
-        if c.get("gtf"):
+        if c.get("doubled"):
+            # the header written twice (two files with the same header glued together): the directives are what they are
+            text = "##gff-version 3\n##species x\n##gff-version 3\n##species x\n" + "\n".join(str(imp.to_feature(x)) for x in c["feats"]) + "\n"
+            db = gffutils.create_db(text, path, from_string=True, merge_strategy="create_unique", verbose=False)
+        elif c.get("gtf"):
             from gffutils import constants
             gd = dict(constants.dialect)
             gd.update({"fmt": "gtf", "keyval separator": " ", "quoted GFF2 values": True, "field separator": "; ", "trailing semicolon": True})
@@ -320,7 +332,11 @@ def run_impl(c):
         gc.collect()
         before, meta0 = dump_file(path)
         h0 = sha(path)
-        db = gffutils.FeatureDB(path)
+        okw = {}
+        if c.get("pragmas"):
+            from gffutils import constants
+            okw["pragmas"] = dict(constants.default_pragmas, **{"main.page_size": 8192})
+        db = gffutils.FeatureDB(path, **okw)
         trace = []
         db.conn.set_trace_callback(trace.append)
         errs = []
